@@ -36,7 +36,7 @@ WRITE_ERRNOS = ['ENOSPC', 'EDQUOT', 'EROFS', 'EIO', 'EACCES']
 
 
 def generate(rng, tier, idx):
-    sc = GU.gen_history(rng)
+    sc = GU.gen_history(rng, {'tree': {'p_dist_same_name': 0.35}})
     sc['prop'] = ID
     files = [t['p'] for t in sc['tree'] if t.get('k', 'file') == 'file']
     for r in sc['rounds']:
